@@ -22,8 +22,8 @@ import re
 import lib
 import c04
 
-QUICK_WALKS = 400
-THOROUGH_WALKS = 6000
+QUICK_WALKS = 25
+THOROUGH_WALKS = 400
 
 
 def run_trace(ctx, idx, rows):
